@@ -48,6 +48,8 @@ def cases(rng, tier):
     out.extend(pake_raise_corpus(rng, tier))
     out.extend(mc.connection_corpus())
     out.extend(keyholder_cases())
+    for nlong, rec in ([(80, 1), (200, 2)] if tier == "quick" else [(20, 1), (80, 1), (140, 3), (200, 2), (400, 2), (1100, 1)]):
+        out.append(dict(kind="long", n=nlong, reconnects=rec, burst=5))
     for i in range(24 if tier == "quick" else 120):
         out.append(dict(seed=2000 + i, n=100, profile="third-alone" if i % 2 else "third"))
     for _ in range(n):
@@ -542,6 +544,13 @@ def run_case(case):
         return Result([], [], keep, ["pair"], True, info=r.info)
     if case.get("kind") == "keyholder":
         return run_keyholder(case)
+    if case.get("kind") == "long":
+        # a LONG session (many peer phases), then a reconnect with the server's full replay of the mailbox, then more
+        # traffic (the scripted family of C09, judged here for internal failures only): legal use, conformant server
+        from . import c09
+        r = c09.run_long(case)
+        keep = [(sg, m) for sg, m in r.violations if sg.startswith(("internal", "closed-itself"))]
+        return Result([], [], keep, list(r.tags), True)
     if "ops" in case:
         ob, summary = replay_fine(case["ops"], welcome_error=case.get("welcome_error"), npeers=case.get("npeers"),
                                   seed=case.get("seed", 0))
